@@ -12,6 +12,9 @@ def main():
     ap.add_argument("--tier", default=os.environ.get("VERIF_TIER", "quick"))
     ap.add_argument("--replay")
     ap.add_argument("--smoke", action="store_true")
+    ap.add_argument("--write-baseline", action="store_true",
+                    help="record the obligations discharged on this tree in "
+                         "baseline_obligations.json (run on the unchanged tree only)")
     a = ap.parse_args()
     if a.smoke:
         from . import smt
@@ -28,6 +31,8 @@ def main():
     try:
         if a.replay:
             return mod.replay_file(a.replay)
+        if a.write_baseline:
+            os.environ["VERIF_WRITE_BASELINE"] = "1"
         return mod.run(a.tier, seed)
     except Exception:
         # a crash of the checker is never a verdict about the code
